@@ -2,7 +2,9 @@ package main
 
 import (
 	"fmt"
+	"os"
 	"sort"
+	"strings"
 
 	"github.com/RoaringBitmap/roaring/v2"
 	segment "github.com/blevesearch/scorch_segment_api/v2"
@@ -379,6 +381,10 @@ func checkC13(c *ctx) {
 		c.Violation("C13 "+bad, false)
 		return
 	}
+	if bad := wideThesaurusMerge(c); bad != "" {
+		c.Violation("C13 "+bad, false)
+		return
+	}
 	if bad := idOrderDeletions(c); bad != "" {
 		c.Violation("C13 "+bad, false)
 		return
@@ -593,4 +599,78 @@ func idOrderDeletions(c *ctx) string {
 		}
 	}
 	return ""
+}
+
+// wideThesaurusMerge: a thesaurus with more than 16384 distinct synonyms (internal ids needing three
+// varint bytes), among them synonyms of 251, 252, 253 and 300 bytes that come last; merged with a
+// small segment and merged again.  Expectation by construction (the extracted specification would
+// take minutes on lists of this size).
+func wideThesaurusMerge(c *ctx) string {
+	var syns []string
+	for i := 0; i < 16390; i++ {
+		syns = append(syns, fmt.Sprintf("s%05d", i))
+	}
+	for _, n := range []int{251, 252, 253, 300} {
+		syns = append(syns, "z"+fmt.Sprint(n)+strings.Repeat("w", n-1-len(fmt.Sprint(n))))
+	}
+	a := zh.Batch{{Fields: []zh.Field{zh.IDField("wide0"), {Name: "syn1", Typ: 's', Syn: []zh.SynDef{{Term: "big", Syns: syns}}}}}}
+	bsmall := zh.Batch{{Fields: []zh.Field{zh.IDField("small0"), {Name: "syn1", Typ: 's', Syn: []zh.SynDef{{Term: "cat", Syns: []string{"feline", syns[len(syns)-3]}}}}}}}
+	sa, _, err := zh.Build(a, 1026)
+	must(err)
+	sbb, _, err := zh.Build(bsmall, 1026)
+	must(err)
+	defer sa.Close()
+	defer sbb.Close()
+	verify := func(seg segment.Segment, bigDoc, catDoc uint64, what string) string {
+		th, err := zh.DumpThesaurus(seg.(segment.ThesaurusSegment), "syn1", nil)
+		if err != nil {
+			return what + ": " + err.Error()
+		}
+		want := map[string]map[string]uint64{"big": {}, "cat": {"feline": catDoc, syns[len(syns)-3]: catDoc}}
+		for _, sy := range syns {
+			want["big"][sy] = bigDoc
+		}
+		if len(th.Terms) != 2 {
+			return fmt.Sprintf("%s: the thesaurus lists %d terms, want big and cat", what, len(th.Terms))
+		}
+		for _, t := range th.Terms {
+			w := want[t.Term]
+			if len(t.Pairs) != len(w) {
+				return fmt.Sprintf("%s: term %q has %d pairs, want %d", what, t.Term, len(t.Pairs), len(w))
+			}
+			for _, p := range t.Pairs {
+				if d, ok := w[p.Syn]; !ok || d != p.Doc {
+					return fmt.Sprintf("%s: term %q yields the pair (%q, document %d), which the input does not define (synonyms of 251, 252, 253 and 300 bytes are defined for document %d)", what, t.Term, clip(p.Syn), p.Doc, bigDoc)
+				}
+			}
+		}
+		return ""
+	}
+	segs := []segment.Segment{sa, sbb}
+	maps, _, path, err := zh.Merge(segs, []*roaring.Bitmap{nil, nil}, 1026)
+	if err != nil {
+		return "merge of a thesaurus with 16394 synonyms failed: " + err.Error()
+	}
+	defer os.Remove(path)
+	m1, err := zh.Plugin.Open(path)
+	if err != nil {
+		return "the merged file cannot be opened: " + err.Error()
+	}
+	defer m1.Close()
+	c.Case("wide-thesaurus-merge", true)
+	c.Count("merges_of_a_thesaurus_with_more_than_16384_synonyms")
+	if bad := verify(m1, maps[0][0], maps[1][0], "merge of a thesaurus with 16394 distinct synonyms (the last four of 251, 252, 253 and 300 bytes) with a small one"); bad != "" {
+		return bad
+	}
+	maps2, _, path2, err := zh.Merge([]segment.Segment{m1}, []*roaring.Bitmap{nil}, 1026)
+	if err != nil {
+		return "second-generation merge failed: " + err.Error()
+	}
+	defer os.Remove(path2)
+	m2, err := zh.Plugin.Open(path2)
+	if err != nil {
+		return "the second-generation file cannot be opened: " + err.Error()
+	}
+	defer m2.Close()
+	return verify(m2, maps2[0][maps[0][0]], maps2[0][maps[1][0]], "the same merged again on its own")
 }
